@@ -166,11 +166,28 @@ Proof.
   - intros Hne. apply lookup_delete_ne. exact Hne.
 Qed.
 
+(* DeleteIf removes the entry exactly when it holds the given transaction, and touches nothing else *)
+Theorem st_delete_if_laws : forall s id id' tag,
+  (by_id s !! id = Some tag -> fst (st_step (snd (st_step s (OpDeleteIf id tag))) (OpGet id)) = None) /\
+  (by_id s !! id <> Some tag -> snd (st_step s (OpDeleteIf id tag)) = s) /\
+  (id <> id' -> fst (st_step (snd (st_step s (OpDeleteIf id tag))) (OpGet id')) = fst (st_step s (OpGet id'))).
+Proof.
+  intros s id id' tag. cbn. repeat split.
+  - intros H. rewrite H, N.eqb_refl. cbn. apply lookup_delete.
+  - intros H. destruct (by_id s !! id) as [t|] eqn:E; [|reflexivity].
+    destruct (N.eqb_spec t tag) as [->|Hne]; [congruence|reflexivity].
+  - intros Hne. destruct (by_id s !! id) as [t|]; [|reflexivity].
+    destruct (t =? tag); [|reflexivity]. cbn. apply lookup_delete_ne. exact Hne.
+Qed.
+
 (* the two key spaces do not interact *)
 Theorem st_spaces_independent : forall s o,
-  (match o with OpStore _ _ | OpGet _ | OpDelete _ => by_type (snd (st_step s o)) = by_type s
+  (match o with OpStore _ _ | OpGet _ | OpDelete _ | OpDeleteIf _ _ => by_type (snd (st_step s o)) = by_type s
               | _ => by_id (snd (st_step s o)) = by_id s end).
-Proof. intros s o. destruct o; reflexivity. Qed.
+Proof.
+  intros s o. destruct o; try reflexivity.
+  cbn. destruct (by_id s !! id) as [t|]; [destruct (t =? tag)|]; reflexivity.
+Qed.
 
 Print Assumptions q_run_nth.
 Print Assumptions q_run_distinct_in_cycle.
@@ -178,6 +195,7 @@ Print Assumptions q_sched_sequential.
 Print Assumptions st_get_after_store.
 Print Assumptions st_get_other_key.
 Print Assumptions st_get_after_delete.
+Print Assumptions st_delete_if_laws.
 Print Assumptions st_delete_other_key.
 Print Assumptions st_bytype_laws.
 Print Assumptions st_spaces_independent.
